@@ -303,7 +303,7 @@ def load_known():
 
 
 def finish(prop, tier, seed, result, level, rule, t0, assumptions, min_judged=1, extra_cov=None, explanation=None,
-           exhaustive=False):
+           exhaustive=False, distinct_measured=None):
     """Triage violations against known findings, write replay + evidence files, print verdict lines; returns the exit
     code."""
     known = [k for k in load_known() if k["property"] == prop]
@@ -332,7 +332,7 @@ def finish(prop, tier, seed, result, level, rule, t0, assumptions, min_judged=1,
     harness_fail = None
     if result.judged < min_judged:
         harness_fail = "only %d cases judged (floor %d): nothing observed" % (result.judged, min_judged)
-    distinct = len(result.nontrivial)
+    distinct = len(result.nontrivial) if distinct_measured is None else int(distinct_measured)
     if distinct < 2:
         harness_fail = harness_fail or "fewer than 2 distinct non-trivial cases observed"
     coverage = {
